@@ -74,6 +74,7 @@ const (
 	APIFiles API = "files" // Linter.LintFiles(files, nil)
 	APIFile  API = "file"  // Linter.LintFile(files[0], nil)
 	APIRepo  API = "repo"  // Linter.LintRepository(dir)
+	APIMem   API = "mem"   // Linter.Lint(path, content, nil) per file, the content handed over in one buffer the caller reuses
 )
 
 // Options mirrors the LinterOptions the harness varies.
@@ -107,6 +108,10 @@ type World struct {
 	// StdoutFailAt > 0: the output writer (Command.Stdout / the Linter's out) fails like a closed
 	// pipe once StdoutFailAt-1 bytes have been written (not for shared Linters)
 	StdoutFailAt int
+	// MemPrior, with APIMem: before each file is linted the caller's buffer held (and another Linter
+	// linted) a text of the same length whose lines begin elsewhere - what an editor integration
+	// that re-lints a changing document out of one buffer does
+	MemPrior bool
 	// LogFailAt > 0: the log writer (Command.Stderr / LinterOptions.LogWriter) fails like a full
 	// disk once LogFailAt-1 bytes have been written (not for shared Linters)
 	LogFailAt int
@@ -191,6 +196,10 @@ func (w *lockedWriter) Write(p []byte) (int, error) {
 	defer w.mu.Unlock()
 	return w.b.Write(p)
 }
+
+// memBuf is the buffer of an embedding program that hands every document to Lint in the same
+// backing array (APIMem); it lives as long as the worker process.
+var memBuf []byte
 
 // curChooser is the choice source of the run in progress (nil: canonical run). sync.Map.Range of
 // the code under test draws its visiting order from it, lazily: the unchanged tree has no sync.Map,
@@ -453,6 +462,36 @@ func lintOnce(w *World, res *LintResult, shared *sharedLinter) {
 					d = w.Files[0]
 				}
 				errs, err = l.LintRepository(d)
+			case APIMem:
+				for _, f := range w.Files {
+					abs := f
+					if !strings.HasPrefix(abs, "/") {
+						abs = kern.CleanPath(w.Cwd + "/" + f)
+					}
+					data, ok := w.Disk.Files[abs]
+					if !ok {
+						err = fmt.Errorf("harness: %s is not on the virtual disk", abs)
+						break
+					}
+					if w.MemPrior {
+						// the same bytes with the first line moved to the end: same length, other line starts
+						rot := append([]byte{}, data...)
+						if i := bytes.IndexByte(data, '\n'); i >= 0 && i+1 < len(data) {
+							rot = append(append([]byte{}, data[i+1:]...), data[:i+1]...)
+						}
+						memBuf = append(memBuf[:0], rot...)
+						if pl, perr := actionlint.NewLinter(io.Discard, opts); perr == nil {
+							pl.Lint(f, memBuf, nil)
+						}
+					}
+					memBuf = append(memBuf[:0], data...)
+					var es []*actionlint.Error
+					es, err = l.Lint(f, memBuf, nil)
+					errs = append(errs, es...)
+					if err != nil {
+						break
+					}
+				}
 			default:
 				panic("harness: unknown API " + string(w.API))
 			}
